@@ -738,75 +738,554 @@ func init() {
 	register(&Rule{
 		Name:  "STATE-AFTER-FALLIBLE",
 		Floor: 3,
-		Doc:   "in the chunk loaders (PostingsIterator.loadChunk, chunkedIntDecoder.loadChunk, docValueReader.loadDvChunk) no store to reader state that identifies the current chunk or caches its data can be followed, on any path, by a return of a possibly non-nil error: a failed load never leaves a half-loaded chunk marked current",
+		Doc:   "the chunk loaders (PostingsIterator.loadChunk, chunkedIntDecoder.loadChunk, docValueReader.loadDvChunk) are transactions on the reader's cache: on every path to a return of a possibly non-nil error, either nothing of the cached chunk has been touched - no store to the field that identifies the current chunk, none to a field that caches its data, no element written through such a field (the doc-value header is filled entry by entry between storage reads), no sub-reader switched to the new chunk (the freq/norm reader is loaded before the location reader) - or the cache has been declared empty on that path (the key set to the constant its constructors use for \"no chunk\", the freq/norm reader's chunk dropped so that isNil() holds) and not re-validated since. A failed load never leaves half a chunk that a later call takes for loaded",
 		Run: func(c *Ctx, scope string, r *Report) {
 			type spec struct {
-				fn     string
-				fields []string
+				fn      string
+				fields  []string // fields of the receiver whose stores change the cached chunk
+				carrier string   // the field whose state says \"a chunk is loaded\": the key, or the sub-reader tested by isNil()
+				subs    []string // sub-readers (pointer fields) switched by their own loader
 			}
 			specs := []spec{
-				{"(*PostingsIterator).loadChunk", []string{"currChunk"}},
-				{"(*docValueReader).loadDvChunk", []string{"curChunkNum", "curChunkData", "uncompressed"}},
-				{"(*chunkedIntDecoder).loadChunk", []string{"curChunkBytes"}},
+				{"(*PostingsIterator).loadChunk", []string{"currChunk"}, "freqNormReader", []string{"freqNormReader", "locReader"}},
+				{"(*docValueReader).loadDvChunk", []string{"curChunkNum", "curChunkData", "uncompressed", "curChunkHeader"}, "curChunkNum", nil},
+				{"(*chunkedIntDecoder).loadChunk", []string{"curChunkBytes"}, "", nil},
+			}
+			loaders := map[*ssa.Function]bool{}
+			for _, sp := range specs {
+				loaders[c.MustFn(sp.fn)] = true
 			}
 			for _, sp := range specs {
 				fn := c.MustFn(sp.fn)
-				want := map[string]bool{}
-				for _, f := range sp.fields {
-					want[f] = true
-				}
-				seenField := map[string]bool{}
-				for _, b := range fn.Blocks {
-					for i, ins := range b.Instrs {
-						var names []string
-						switch x := ins.(type) {
-						case *ssa.Store:
-							fa, ok := x.Addr.(*ssa.FieldAddr)
-							if !ok || fa.X != ssa.Value(fn.Params[0]) {
-								continue
-							}
-							if _, f := fieldAddrInfo(fa); f != nil {
-								names = []string{f.Name()}
-							}
-						case ssa.CallInstruction:
-							// a helper method of the same reader that updates the state
-							sc := x.Common().StaticCallee()
-							if sc == nil || !c.inRoot(sc) || sc.Blocks == nil || sc == fn {
-								continue
-							}
-							for ai, a := range x.Common().Args {
-								if a == ssa.Value(fn.Params[0]) && ai < len(sc.Params) {
-									for name := range fieldEvents(sc, targetsOf(sc, ai)) {
-										names = append(names, name)
-									}
-								}
-							}
-							sort.Strings(names)
-						default:
-							continue
-						}
-						for _, name := range names {
-							if !want[name] {
-								continue
-							}
-							seenField[name] = true
-							key := sp.fn + "/" + name
-							if ret := errReturnReachableAfter(b, i); ret != nil {
-								r.bad(key, sp.fn, c.pos(ins.Pos()), "reader state ."+name+" is updated before a fallible step: the error return at "+c.pos(retPos(ret, ret.Block()))+" leaves it claiming a chunk that was not loaded")
-							} else {
-								r.ok(key, sp.fn, c.pos(ins.Pos()), "no error return is reachable after this store")
-							}
-						}
-					}
-				}
-				for _, f := range sp.fields {
-					if !seenField[f] {
-						r.undecided(sp.fn+"/"+f, sp.fn, c.pos(fn.Pos()), "field ."+f+" is no longer stored by this loader: the rule's model of the reader state is out of date")
-					}
-				}
+				txCheck(c, r, fn, sp.fn, sp.fields, sp.carrier, sp.subs, loaders)
 			}
 		},
 	})
+}
+
+// sentinelConsts: the constants stored into field f of type owner outside fn
+// (constructors, clone): the values that stand for \"nothing loaded\".
+func sentinelConsts(c *Ctx, owner *types.Named, fname string, except *ssa.Function) map[string]bool {
+	out := map[string]bool{}
+	for _, fn := range c.srcFns {
+		if fn == except {
+			continue
+		}
+		for _, b := range fn.Blocks {
+			for _, ins := range b.Instrs {
+				st, ok := ins.(*ssa.Store)
+				if !ok {
+					continue
+				}
+				fa, ok := st.Addr.(*ssa.FieldAddr)
+				if !ok {
+					continue
+				}
+				o, f := fieldAddrInfo(fa)
+				if o != owner || f == nil || f.Name() != fname {
+					continue
+				}
+				if k, ok := stripConv(st.Val).(*ssa.Const); ok && k.Value != nil && k.Value.String() != "0" {
+					out[k.Value.ExactString()] = true
+				}
+			}
+		}
+	}
+	return out
+}
+
+type txEvent struct {
+	kind  string // "mutate", "invalidate"
+	field string
+	pos   token.Pos
+}
+
+type txState struct {
+	mask    string // sorted mutated fields, comma separated
+	invalid bool
+	flags   string
+}
+
+type txOut struct {
+	st      txState
+	mayFail bool
+	ret     *ssa.Return
+}
+
+// txChecker: see the doc of STATE-AFTER-FALLIBLE.
+type txChecker struct {
+	c         *Ctx
+	loader    *ssa.Function
+	want      map[string]bool
+	isSub     map[string]bool
+	carrier   string
+	gates     map[string]bool // bool fields of the reader that the callers test before they (re)load
+	sentinels map[string]bool
+	loaders   map[*ssa.Function]bool
+	seenField map[string]token.Pos
+	steps     int
+	tooMany   bool
+}
+
+func txSetAdd(set, f string) string {
+	parts := map[string]bool{}
+	for _, p := range strings.Split(set, ",") {
+		if p != "" {
+			parts[p] = true
+		}
+	}
+	parts[f] = true
+	var l []string
+	for p := range parts {
+		l = append(l, p)
+	}
+	sort.Strings(l)
+	return strings.Join(l, ",")
+}
+
+// recvField: the receiver field an address is rooted at (x.f, x.f[i], x.f[i].g,
+// (*x.f).g), whether the address is the field itself, and the inner field.
+func txRecvField(recv ssa.Value, a ssa.Value) (field string, direct bool, inner string) {
+	switch x := a.(type) {
+	case *ssa.FieldAddr:
+		if x.X == recv {
+			if _, f := fieldAddrInfo(x); f != nil {
+				return f.Name(), true, ""
+			}
+			return "", false, ""
+		}
+		f, _, _ := txRecvField(recv, x.X)
+		if f != "" {
+			in := ""
+			if _, fv := fieldAddrInfo(x); fv != nil {
+				in = fv.Name()
+			}
+			return f, false, in
+		}
+	case *ssa.IndexAddr:
+		f, _, _ := txRecvField(recv, x.X)
+		return f, false, ""
+	case *ssa.UnOp:
+		if x.Op == token.MUL {
+			f, _, _ := txRecvField(recv, x.X)
+			return f, false, ""
+		}
+	}
+	return "", false, ""
+}
+
+func txEmptyVal(v ssa.Value) bool {
+	v = stripConv(v)
+	if isNilConst(v) {
+		return true
+	}
+	if k, ok := v.(*ssa.Const); ok && k.Value != nil && (k.Value.String() == "false" || k.Value.String() == "0") {
+		return true
+	}
+	if sl, ok := v.(*ssa.Slice); ok && sl.High != nil {
+		if k, ok := sl.High.(*ssa.Const); ok && k.Value != nil && k.Value.String() == "0" {
+			return true
+		}
+	}
+	return false
+}
+
+func (t *txChecker) note(e txEvent) {
+	if e.kind != "mutate" {
+		return
+	}
+	if p, ok := t.seenField[e.field]; !ok || e.pos < p {
+		t.seenField[e.field] = e.pos
+	}
+}
+
+// events of one function in which recv is the reader.
+func (t *txChecker) eventsOf(fn *ssa.Function, recv ssa.Value) (map[ssa.Instruction][]txEvent, map[[2]*ssa.BasicBlock][]txEvent, map[ssa.Instruction]*ssa.Function) {
+	events := map[ssa.Instruction][]txEvent{}
+	edgeEvents := map[[2]*ssa.BasicBlock][]txEvent{}
+	inline := map[ssa.Instruction]*ssa.Function{}
+	add := func(ins ssa.Instruction, e txEvent) {
+		events[ins] = append(events[ins], e)
+		t.note(e)
+	}
+	for _, b := range fn.Blocks {
+		for _, ins := range b.Instrs {
+			switch x := ins.(type) {
+			case *ssa.Store:
+				f, direct, inner := txRecvField(recv, x.Addr)
+				if f == "" || !(t.want[f] || t.gates[f]) {
+					continue
+				}
+				switch {
+				case direct && t.gates[f]:
+					if txEmptyVal(x.Val) {
+						add(ins, txEvent{"invalidate", f, ins.Pos()})
+					} else {
+						add(ins, txEvent{"revalidate", f, ins.Pos()})
+					}
+				case direct && f == t.carrier && !t.isSub[f]:
+					if k, ok := stripConv(x.Val).(*ssa.Const); ok && k.Value != nil && t.sentinels[k.Value.ExactString()] {
+						add(ins, txEvent{"invalidate", f, ins.Pos()})
+					} else {
+						add(ins, txEvent{"mutate", f, ins.Pos()})
+					}
+				case t.isSub[f] && !direct:
+					// a field of the sub-reader: dropping its chunk declares it empty
+					if f == t.carrier && inner == "curChunkBytes" && txEmptyVal(x.Val) {
+						add(ins, txEvent{"invalidate", f, ins.Pos()})
+					} else {
+						add(ins, txEvent{"mutate", f, ins.Pos()})
+					}
+				default:
+					add(ins, txEvent{"mutate", f, ins.Pos()})
+				}
+			case *ssa.Call:
+				sc := x.Call.StaticCallee()
+				if sc == nil || !t.c.inRoot(sc) || sc.Blocks == nil || sc == fn {
+					continue
+				}
+				if len(x.Call.Args) > 0 && x.Call.Signature().Recv() != nil {
+					f, _, _ := txRecvField(recv, x.Call.Args[0])
+					if f != "" && t.isSub[f] {
+						if sc.Name() == "reset" && f == t.carrier {
+							add(ins, txEvent{"invalidate", f, ins.Pos()})
+							continue
+						}
+						if t.loaders[sc] {
+							// switched on the success edge of the test of its error
+							var errV ssa.Value = x
+							placed := false
+							if refs := x.Referrers(); refs != nil {
+								for _, ref := range *refs {
+									bo, ok := ref.(*ssa.BinOp)
+									if !ok || !(isNilConst(bo.X) || isNilConst(bo.Y)) || (bo.X != errV && bo.Y != errV) || bo.Referrers() == nil {
+										continue
+									}
+									for _, br := range *bo.Referrers() {
+										ifi, ok := br.(*ssa.If)
+										if !ok {
+											continue
+										}
+										ib := ifi.Block()
+										succ := ib.Succs[1]
+										if bo.Op == token.EQL {
+											succ = ib.Succs[0]
+										}
+										e := txEvent{"mutate", f, ins.Pos()}
+										edgeEvents[[2]*ssa.BasicBlock{ib, succ}] = append(edgeEvents[[2]*ssa.BasicBlock{ib, succ}], e)
+										t.note(e)
+										placed = true
+									}
+								}
+							}
+							if !placed {
+								add(ins, txEvent{"mutate", f, ins.Pos()})
+							}
+							continue
+						}
+					}
+				}
+				// a helper of the same reader: followed into
+				for ai, a := range x.Call.Args {
+					if a == recv && ai < len(sc.Params) && !t.loaders[sc] {
+						inline[ins] = sc
+						_ = ai
+					}
+				}
+			}
+		}
+	}
+	return events, edgeEvents, inline
+}
+
+func (t *txChecker) apply(st *txState, evs []txEvent) {
+	for _, e := range evs {
+		switch e.kind {
+		case "mutate":
+			st.mask = txSetAdd(st.mask, e.field)
+			if e.field == t.carrier {
+				st.invalid = false
+			}
+		case "revalidate":
+			st.invalid = false
+		case "invalidate":
+			st.invalid = true
+		}
+	}
+}
+
+// run explores fn from its entry in state in and returns the states at its returns.
+func (t *txChecker) run(fn *ssa.Function, recv ssa.Value, in txState, depth int) []txOut {
+	events, edgeEvents, inline := t.eventsOf(fn, recv)
+	// bool fields of the reader that fn only reads: two tests of the same flag agree
+	flagOf := func(v ssa.Value) (string, bool, bool) {
+		neg := false
+		for {
+			u, ok := v.(*ssa.UnOp)
+			if !ok {
+				return "", false, false
+			}
+			if u.Op == token.NOT {
+				neg = !neg
+				v = u.X
+				continue
+			}
+			if u.Op == token.MUL {
+				if f, direct, _ := txRecvField(recv, u.X); direct && !t.gates[f] && !t.want[f] {
+					if b, ok := u.Type().Underlying().(*types.Basic); ok && b.Kind() == types.Bool {
+						return f, neg, true
+					}
+				}
+			}
+			return "", false, false
+		}
+	}
+	type node struct {
+		b  *ssa.BasicBlock
+		i  int // next instruction
+		st txState
+	}
+	var outs []txOut
+	seen := map[node]bool{}
+	start := node{b: fn.Blocks[0], st: in}
+	work := []node{start}
+	seen[start] = true
+	push := func(n node) {
+		if !seen[n] {
+			seen[n] = true
+			work = append(work, n)
+		}
+	}
+	for len(work) > 0 {
+		n := work[len(work)-1]
+		work = work[:len(work)-1]
+		t.steps++
+		if t.steps > 400000 {
+			t.tooMany = true
+			return outs
+		}
+		cur := n.st
+		b := n.b
+		split := false
+		for idx := n.i; idx < len(b.Instrs); idx++ {
+			ins := b.Instrs[idx]
+			t.apply(&cur, events[ins])
+			if callee := inline[ins]; callee != nil && depth < 2 {
+				var cr ssa.Value
+				for ai, a := range ins.(*ssa.Call).Call.Args {
+					if a == recv && ai < len(callee.Params) {
+						cr = callee.Params[ai]
+					}
+				}
+				for _, o := range t.run(callee, cr, cur, depth+1) {
+					push(node{b: b, i: idx + 1, st: o.st})
+				}
+				split = true
+				break
+			} else if callee != nil {
+				// too deep: what the helper may store counts as changed
+				for ai, a := range ins.(*ssa.Call).Call.Args {
+					if a == recv && ai < len(callee.Params) {
+						var names []string
+						for nm := range fieldEvents(callee, targetsOf(callee, ai)) {
+							names = append(names, nm)
+						}
+						sort.Strings(names)
+						for _, nm := range names {
+							if t.want[nm] {
+								e := txEvent{"mutate", nm, ins.Pos()}
+								t.note(e)
+								t.apply(&cur, []txEvent{e})
+							}
+						}
+					}
+				}
+			}
+			if ret, ok := ins.(*ssa.Return); ok {
+				mayFail := false
+				for _, res := range ret.Results {
+					if isErrorType(res.Type()) && !isNilConst(resolveLoad(res)) {
+						mayFail = true
+					}
+				}
+				outs = append(outs, txOut{cur, mayFail, ret})
+			}
+		}
+		if split {
+			continue
+		}
+		succs := b.Succs
+		var only *ssa.BasicBlock
+		var flag string
+		var neg, isFlag bool
+		if ifi, ok := b.Instrs[len(b.Instrs)-1].(*ssa.If); ok {
+			flag, neg, isFlag = flagOf(ifi.Cond)
+			if isFlag {
+				switch {
+				case strings.Contains(","+cur.flags+",", ","+flag+"=1,"):
+					only = succs[0]
+					if neg {
+						only = succs[1]
+					}
+				case strings.Contains(","+cur.flags+",", ","+flag+"=0,"):
+					only = succs[1]
+					if neg {
+						only = succs[0]
+					}
+				}
+			}
+		}
+		for si, s := range succs {
+			if only != nil && s != only {
+				continue
+			}
+			nx := cur
+			if isFlag && only == nil {
+				val := "1"
+				if (si == 1) != neg {
+					val = "0"
+				}
+				nx.flags = txSetAdd(cur.flags, flag+"="+val)
+			}
+			t.apply(&nx, edgeEvents[[2]*ssa.BasicBlock{b, s}])
+			push(node{b: s, st: nx})
+		}
+	}
+	return outs
+}
+
+// gatingFlags: the bool fields of the reader that a caller of the loader tests
+// in the condition that decides whether the loader runs (`if !r.loaded || ...`).
+func gatingFlags(c *Ctx, loader *ssa.Function) map[string]bool {
+	out := map[string]bool{}
+	for _, fn := range c.srcFns {
+		for _, b := range fn.Blocks {
+			for _, ins := range b.Instrs {
+				call, ok := ins.(*ssa.Call)
+				if !ok || call.Call.StaticCallee() != loader || len(call.Call.Args) == 0 {
+					continue
+				}
+				recv := call.Call.Args[0]
+				// the condition region in front of the call: predecessors that only test
+				seen := map[*ssa.BasicBlock]bool{}
+				var walk func(blk *ssa.BasicBlock, depth int)
+				walk = func(blk *ssa.BasicBlock, depth int) {
+					if depth > 6 || seen[blk] {
+						return
+					}
+					seen[blk] = true
+					for _, p := range blk.Preds {
+						ifi, ok := p.Instrs[len(p.Instrs)-1].(*ssa.If)
+						if !ok {
+							if _, isJump := p.Instrs[len(p.Instrs)-1].(*ssa.Jump); isJump && len(p.Instrs) <= 6 {
+								walk(p, depth+1)
+							}
+							continue
+						}
+						for _, truth := range []bool{true, false} {
+							for _, f := range condFacts(ifi.Cond, truth, 0) {
+								v := f.cond
+								for {
+									u, ok := v.(*ssa.UnOp)
+									if ok && u.Op == token.NOT {
+										v = u.X
+										continue
+									}
+									break
+								}
+								if u, ok := v.(*ssa.UnOp); ok && u.Op == token.MUL {
+									if fa, ok := u.X.(*ssa.FieldAddr); ok && fa.X == recv {
+										if bt, ok := u.Type().Underlying().(*types.Basic); ok && bt.Kind() == types.Bool {
+											if _, fv := fieldAddrInfo(fa); fv != nil {
+												out[fv.Name()] = true
+											}
+										}
+									}
+								}
+							}
+						}
+						pure := true
+						for _, pi := range p.Instrs {
+							switch pi.(type) {
+							case *ssa.Store, *ssa.MapUpdate, *ssa.Send:
+								pure = false
+							}
+						}
+						if pure {
+							walk(p, depth+1)
+						}
+					}
+				}
+				walk(b, 0)
+			}
+		}
+	}
+	return out
+}
+
+func txCheck(c *Ctx, r *Report, fn *ssa.Function, name string, fields []string, carrier string, subs []string, loaders map[*ssa.Function]bool) {
+	recv := ssa.Value(fn.Params[0])
+	owner := namedOf(recv.Type())
+	t := &txChecker{c: c, loader: fn, want: map[string]bool{}, isSub: map[string]bool{}, carrier: carrier, loaders: loaders, seenField: map[string]token.Pos{}, sentinels: map[string]bool{}}
+	for _, f := range fields {
+		t.want[f] = true
+	}
+	for _, f := range subs {
+		t.isSub[f] = true
+		t.want[f] = true
+	}
+	if carrier != "" && !t.isSub[carrier] && owner != nil {
+		t.sentinels = sentinelConsts(c, owner, carrier, fn)
+	}
+	t.gates = map[string]bool{}
+	for g := range gatingFlags(c, fn) {
+		// only flags that the loader itself maintains
+		stored := false
+		for _, b := range fn.Blocks {
+			for _, ins := range b.Instrs {
+				if st, ok := ins.(*ssa.Store); ok {
+					if f, direct, _ := txRecvField(recv, st.Addr); direct && f == g {
+						stored = true
+					}
+				}
+			}
+		}
+		if stored && !t.want[g] {
+			t.gates[g] = true
+		}
+	}
+	badAt := map[string]*ssa.Return{}
+	for _, o := range t.run(fn, recv, txState{}, 0) {
+		if o.mayFail && o.st.mask != "" && !o.st.invalid {
+			for _, f := range strings.Split(o.st.mask, ",") {
+				if badAt[f] == nil {
+					badAt[f] = o.ret
+				}
+			}
+		}
+	}
+	if t.tooMany {
+		r.undecided(name+"/transaction", name, c.pos(fn.Pos()), "too many states")
+		return
+	}
+	var all []string
+	for f := range t.want {
+		all = append(all, f)
+	}
+	sort.Strings(all)
+	for _, f := range all {
+		key := name + "/" + f
+		pos, ok := t.seenField[f]
+		if !ok {
+			r.undecided(key, name, c.pos(fn.Pos()), "field ."+f+" is no longer changed by this loader: the rule's model of the reader state is out of date")
+			continue
+		}
+		if ret := badAt[f]; ret != nil {
+			r.bad(key, name, c.pos(pos), "reader state ."+f+" is changed before a fallible step and the error return at "+c.pos(retPos(ret, ret.Block()))+" is reachable without the cache having been declared empty: a failed load leaves half a chunk that a later call takes for loaded")
+		} else {
+			r.ok(key, name, c.pos(pos), "no error return is reachable after this change without the cache having been declared empty")
+		}
+	}
 }
 
 // errReturnReachableAfter: is a Return whose error operand may be non-nil
